@@ -134,8 +134,7 @@ class GaussianSampler(PointSampler):
             while current_num_of_points < self.n_points:
                 new_points = torch_dis.sample((self.n_points,))
                 new_points = Points(new_points, self.domain.space)
-                new_points = new_points.join(repeat_params)
-                new_points = self._check_inside_domain(new_points)
+                new_points = self._check_inside_domain(new_points, repeat_params)
                 current_num_of_points += len(new_points)
                 new_sample_points = self._set_sampled_points(
                     new_sample_points, new_points
@@ -149,10 +148,12 @@ class GaussianSampler(PointSampler):
         self.mean = self.mean.to(device)
         self.std = self.std.to(device)
 
-    def _check_inside_domain(self, new_points):
-        inside = self.domain._contains(new_points)
+    def _check_inside_domain(self, new_points, repeat_params):
+        # the parameters are handed over separately, domain operations pass
+        # them on to their sub-domains
+        inside = self.domain._contains(new_points, repeat_params)
         index = torch.where(inside)[0]
-        return new_points[index,]
+        return new_points.join(repeat_params)[index,]
 
 
 class LHSSampler(PointSampler):
@@ -218,10 +219,11 @@ class LHSSampler(PointSampler):
     def _check_lhs_inside(self, lhs_points, ith_params):
         new_points = Points(lhs_points, self.domain.space)
         repeat_params = self._repeat_params(ith_params, len(new_points))
-        new_points = new_points.join(repeat_params)
-        inside = self.domain._contains(new_points)
+        # the parameters are handed over separately, domain operations pass
+        # them on to their sub-domains
+        inside = self.domain._contains(new_points, repeat_params)
         index = torch.where(inside)[0]
-        return new_points[index,]
+        return new_points.join(repeat_params)[index,]
 
     def _append_random_points(self, new_points, current_params):
         if len(new_points) == self.n_points:
